@@ -291,6 +291,13 @@ macro_rules! dispatch {
 }
 
 fn main() {
+    // everything runs on a thread with a roomy stack (minimiser and replay call into the code under test too)
+    let h = std::thread::Builder::new().name("driver".into()).stack_size(engine::BIG_STACK).spawn(real_main).expect("spawn driver");
+    let _ = h.join();
+    std::process::exit(2);
+}
+
+fn real_main() {
     install_panic_hook();
     let args: Vec<String> = std::env::args().skip(1).collect();
     if args.is_empty() {
